@@ -42,7 +42,59 @@ def gen(ctx, i):
         # keyword texts recur in several roles of the grammar
         gen_.preuse = 0.2
     g = gen_.grammar()
+    if i % 7 == 3:
+        nullable_shapes(g, gen_, ctx.rng('nullable', i))
     return r, gen_, g
+
+
+def nullable_shapes(g, gen_, r):
+    """Zone F1: alternatives and repetition bodies that succeed without anything to report (suppressed match, optional).
+    Applied inside sequences of common rules that start with a keyword, so no rule can match the empty string."""
+    from tv.refpeg import Seq, Choice, Opt, Rep, Lit, Unord, Assign
+    kinds = RP.rule_kinds(g)
+    seqs, choices = [], []
+
+    def walk(e, top):
+        if isinstance(e, Seq):
+            if not top:
+                seqs.append(e)
+            for x in e.items:
+                walk(x, False)
+        elif isinstance(e, Choice):
+            if not top:
+                choices.append(e)
+            for x in e.alts:
+                walk(x, False)
+        elif isinstance(e, (Opt, Rep)):
+            walk(e.e, False)
+        elif isinstance(e, Unord):
+            pass
+    for rl in g.rules:
+        if kinds.get(rl.name) == 'common' and isinstance(rl.body, Seq):
+            seqs.append(rl.body)
+            for x in rl.body.items:
+                walk(x, False)
+    done = 0
+    for _ in range(r.randint(1, 2)):
+        k = r.randrange(3)
+        if k == 0 and choices:
+            c = r.choice(choices)
+            c.alts.insert(r.randrange(len(c.alts)), Lit(r.choice(['~~', '~', '^^']), suppress=True))
+            gen_.used_features.add('nullable-suppressed-alternative')
+            done += 1
+        elif k == 1 and choices:
+            c = r.choice(choices)
+            j = r.randrange(max(1, len(c.alts) - 1))
+            if not isinstance(c.alts[j], (Opt, Lit)):
+                c.alts[j] = Opt(c.alts[j])
+                gen_.used_features.add('nullable-optional-alternative')
+                done += 1
+        elif seqs:
+            q = r.choice(seqs)
+            q.items.insert(r.randint(1, len(q.items)), Rep(Lit(r.choice(['~~', '^^', '!']), suppress=True), r.randint(0, 1)))
+            gen_.used_features.add('repetition-of-suppressed-match')
+            done += 1
+    return done
 
 
 def RP_G(r):
@@ -118,6 +170,8 @@ def _one(ctx, i, rep=None):
         case = {'grammar': text, 'input': s, 'config': cfg, 'reference': repr(ref)[:1500], 'textx': repr(got)[:1500],
                 'features': sorted(feats | gen_.used_features)}
         key = classify_div(g, s, cfg, ref, got, feats | gen_.used_features, stripped)
+        if key is None:
+            key = classify_repaired(mm, g, s, cfg, ref, gen_.used_features)
         ctx.violation(key, 'reference %s / textX %s on input %r (cfg %s)' % (ref[0], got[0], s[:60], cfg), case, rep)
 
 
@@ -141,6 +195,25 @@ def classify_div(g, s, cfg, ref, got, feats, stripped_restores=0):
                 else 'dangling-separator'
     if stripped_restores:
         return 'eolterm-ws-restore'
+    return None
+
+
+def classify_repaired(mm, g, s, cfg, ref, feats):
+    """explained-by for Arpeggio's result convention: the divergence must disappear when textX runs once more on an Arpeggio
+    in which exactly that convention is repaired (harness-side); combined with the other recorded mechanisms the repaired run
+    must equal the reference that emulates those."""
+    if not any(f.startswith(('nullable-', 'repetition-of-suppressed')) for f in feats):
+        return None
+    from tv.hooks import arpeggio_repaired
+    with arpeggio_repaired({'falsy-result'}):
+        got2 = P.textx_outcome(mm, s)
+    g2 = ('reject',) if got2[0] == 'reject' else got2
+    if g2 == ref:
+        return 'arpeggio-falsy-result-convention'
+    for emu in EMULATIONS:
+        r2, _ = P.ref_outcome(g, s, cfg, emulate=emu)
+        if r2 == g2:
+            return 'arpeggio-falsy-result-convention'
     return None
 
 
